@@ -53,3 +53,949 @@ Qed.
 Lemma prepass_pool_present : forall kvs,
   has_key s_discard kvs = true -> prepass_pool (VMap kvs) = VMap kvs.
 Proof. intros kvs H. unfold prepass_pool. rewrite H. reflexivity. Qed.
+
+(* ---------------------------------------------------------------- results *)
+Definition notok {A} (r : res A) : Prop := match r with Ok _ => False | _ => True end.
+
+Lemma rcons_notok_l : forall A (r1 : res A) r2, notok r1 -> notok (rcons r1 r2).
+Proof. intros A [a|e|] [l|e2|]; cbn; tauto. Qed.
+Lemma rcons_notok_r : forall A (r1 : res A) r2, notok r2 -> notok (rcons r1 r2).
+Proof. intros A [a|e|] [l|e2|]; cbn; tauto. Qed.
+Lemma rmap_notok : forall A B (f : A -> B) r, notok r -> notok (rmap f r).
+Proof. intros A B f [a|e|]; cbn; tauto. Qed.
+
+(* ---------------------------------------------------------------- key lookup *)
+Lemma find_exact_some : forall k kvs k0 x, find_exact k kvs = Some (k0, x) -> k0 = k /\ In (k0, x) kvs.
+Proof.
+  induction kvs as [|[k1 x1] r IH]; cbn; intros k0 x H; [discriminate|].
+  destruct (str_eqb k k1) eqn:E.
+  - inversion H; subst. apply str_eqb_eq in E. subst. auto.
+  - destruct (IH _ _ H) as [H1 H2]. auto.
+Qed.
+
+Lemma count_fold_zero_exact : forall k fk kvs,
+  count_fold k kvs = O -> fold_eqb fk k = true -> find_exact fk kvs = None /\ find_fold fk kvs = None.
+Proof.
+  induction kvs as [|[k1 x1] r IH]; cbn; intros Hc Hf; [auto|].
+  destruct (fold_eqb k k1) eqn:E; [discriminate|].
+  assert (Hn : fold_eqb fk k1 = false).
+  { destruct (fold_eqb fk k1) eqn:E2; auto. rewrite fold_eqb_sym in Hf.
+    rewrite (fold_eqb_trans _ _ _ Hf E2) in E. discriminate. }
+  assert (Hs : str_eqb fk k1 = false).
+  { destruct (str_eqb fk k1) eqn:E2; auto. apply str_eqb_fold in E2. congruence. }
+  rewrite Hs, Hn. apply IH; auto.
+Qed.
+
+Lemma find_key_unique : forall k fk kvs k0 x,
+  unique_key k kvs = true -> fold_eqb fk k = true ->
+  find_exact k kvs = Some (k0, x) -> find_key fk kvs = Some (k0, x).
+Proof.
+  unfold unique_key, find_key.
+  induction kvs as [|[k1 x1] r IH]; cbn; intros k0 x Hu Hf He; [discriminate|].
+  destruct (fold_eqb k k1) eqn:E.
+  - assert (Hc : count_fold k r = O) by (apply Nat.eqb_eq in Hu; lia).
+    destruct (str_eqb k k1) eqn:Es.
+    + inversion He; subst.
+      destruct (str_eqb fk k0) eqn:E2; [reflexivity|].
+      destruct (count_fold_zero_exact k fk r Hc Hf) as [H1 H2]. rewrite H1.
+      rewrite (fold_eqb_trans _ _ _ Hf E). reflexivity.
+    + (* the exact match would be later in r, but r has no key matching k *)
+      destruct (find_exact_some _ _ _ _ He) as [-> _].
+      destruct (count_fold_zero_exact k k r Hc (fold_eqb_refl k)) as [H1 _]. congruence.
+  - assert (Hs : str_eqb k k1 = false).
+    { destruct (str_eqb k k1) eqn:E2; auto. apply str_eqb_fold in E2. congruence. }
+    rewrite Hs in He.
+    assert (Hn : fold_eqb fk k1 = false).
+    { destruct (fold_eqb fk k1) eqn:E2; auto. rewrite fold_eqb_sym in Hf.
+      rewrite (fold_eqb_trans _ _ _ Hf E2) in E. discriminate. }
+    assert (Hs2 : str_eqb fk k1 = false).
+    { destruct (str_eqb fk k1) eqn:E2; auto. apply str_eqb_fold in E2. congruence. }
+    rewrite Hs2, Hn. apply IH; auto.
+Qed.
+
+Lemma nth_field_find : forall k ffs cs f c, nth_field k ffs cs = Some (f, c) -> find_field k ffs = Some f.
+Proof.
+  induction ffs as [|f0 r IH]; cbn; intros cs f c H; [discriminate|].
+  destruct (fold_eqb (f_key f0) k); [inversion H; reflexivity|]. eapply IH; eauto.
+Qed.
+
+Lemma find_field_key : forall k ffs f, find_field k ffs = Some f -> fold_eqb (f_key f) k = true.
+Proof.
+  induction ffs as [|f0 r IH]; cbn; intros f H; [discriminate|].
+  destruct (fold_eqb (f_key f0) k) eqn:E; [inversion H; subst; exact E|]. apply IH; auto.
+Qed.
+
+(* ---------------------------------------------------------------- one decoding level *)
+Section Level.
+Variable dec : schema -> cval -> value -> res cval.
+
+Lemma dec_fields_notok : forall k ffs cs kvs f k' x,
+  find_field k ffs = Some f ->
+  find_key (f_key f) kvs = Some (k', x) ->
+  (forall c, notok (dec (f_schema f) c x)) ->
+  notok (fst (dec_fields dec ffs cs kvs)).
+Proof.
+  induction ffs as [|f0 r IH]; cbn -[find_key]; intros cs kvs f k' x Hf Hk Hn; [discriminate|].
+  destruct (fold_eqb (f_key f0) k) eqn:E.
+  - inversion Hf; subst. rewrite Hk.
+    destruct (dec_fields dec r (tl cs) kvs) as [r2 u2]. cbn [fst]. apply rcons_notok_l. apply Hn.
+  - specialize (IH (tl cs) kvs f k' x Hf Hk Hn).
+    destruct (find_key (f_key f0) kvs) as [[k1 x1]|];
+      destruct (dec_fields dec r (tl cs) kvs) as [r2 u2]; cbn [fst] in *; apply rcons_notok_r; exact IH.
+Qed.
+
+Lemma dec_struct_field_notok : forall s cur kvs k k0 x f,
+  unique_key k kvs = true ->
+  find_exact k kvs = Some (k0, x) ->
+  find_field k (flat_fields s) = Some f ->
+  (forall c, notok (dec (f_schema f) c x)) ->
+  notok (dec_struct dec s cur kvs).
+Proof.
+  intros s cur kvs k k0 x f Hu He Hf Hn. unfold dec_struct.
+  pose proof (find_key_unique k (f_key f) kvs k0 x Hu (find_field_key _ _ _ Hf) He) as Hk.
+  pose proof (dec_fields_notok k (flat_fields s) (struct_cur s cur) kvs f k0 x Hf Hk Hn) as H.
+  destruct (dec_fields dec (flat_fields s) (struct_cur s cur) kvs) as [r u]. cbn in H.
+  destruct r; cbn in *; tauto.
+Qed.
+
+Lemma dec_elems_notok : forall e l cur i x,
+  nth_error l i = Some x -> (forall c, notok (dec e c x)) -> notok (dec_elems dec e cur l).
+Proof.
+  induction l as [|y r IH]; intros cur i x Hn Hx; destruct i; cbn in *; try discriminate.
+  - inversion Hn; subst. apply rcons_notok_l. apply Hx.
+  - apply rcons_notok_r. eapply IH; eauto.
+Qed.
+
+Lemma dec_entries_notok : forall e kvs k k0 x,
+  find_exact k kvs = Some (k0, x) -> (forall c, notok (dec e c x)) -> notok (dec_entries dec e kvs).
+Proof.
+  induction kvs as [|[k1 x1] r IH]; cbn; intros k k0 x He Hx; [discriminate|].
+  destruct (str_eqb k k1) eqn:E.
+  - inversion He; subst. apply rcons_notok_l.
+    specialize (Hx (zero_of e)). destruct (dec e (zero_of e) x); cbn in Hx; try tauto;
+      destruct (dec (SScalar KString) (CStr []) (VStr k0)) as [[]|?|]; cbn; auto.
+  - apply rcons_notok_r. eapply IH; eauto.
+Qed.
+
+End Level.
+
+(* ---------------------------------------------------------------- filters on the plugin type key *)
+Lemma is_type_key_fold : forall k k' x y, fold_eqb k k' = true -> is_type_key (k, x) = is_type_key (k', y).
+Proof. intros k k' x y H. unfold is_type_key. cbn [fst]. apply fold_eqb_eq in H. rewrite H. reflexivity. Qed.
+
+Lemma count_fold_filter : forall k kvs,
+  is_type_key (k, VNull) = false ->
+  count_fold k (filter (fun kv => negb (is_type_key kv)) kvs) = count_fold k kvs.
+Proof.
+  induction kvs as [|[k1 x1] r IH]; cbn -[is_type_key]; intro H; [reflexivity|].
+  destruct (fold_eqb k k1) eqn:E.
+  - rewrite <- (is_type_key_fold k k1 VNull x1 E), H. cbn -[is_type_key]. rewrite E, IH; auto.
+  - destruct (is_type_key (k1, x1)); cbn -[is_type_key]; [|rewrite E]; rewrite IH; auto.
+Qed.
+
+Lemma find_exact_filter : forall k kvs,
+  is_type_key (k, VNull) = false ->
+  find_exact k (filter (fun kv => negb (is_type_key kv)) kvs) = find_exact k kvs.
+Proof.
+  induction kvs as [|[k1 x1] r IH]; cbn -[is_type_key]; intro H; [reflexivity|].
+  destruct (str_eqb k k1) eqn:E.
+  - rewrite <- (is_type_key_fold k k1 VNull x1 (str_eqb_fold _ _ E)), H. cbn -[is_type_key]. rewrite E. reflexivity.
+  - destruct (is_type_key (k1, x1)); cbn -[is_type_key]; [|rewrite E]; rewrite IH; auto.
+Qed.
+
+Lemma flat_fields_struct : forall s k f, find_field k (flat_fields s) = Some f -> exists nl fs, s = SStruct nl fs.
+Proof. intros s k f H. destruct s; cbn in H; try discriminate. eauto. Qed.
+
+(* ---------------------------------------------------------------- the decoder *)
+Section Decoder.
+Variable env : str -> option str.
+Variable prop : str -> str -> option str.
+Variable orc : okind -> str -> option Z.
+Variable orcq : str -> option Q.
+Variable reg : list entry.
+Variable lz : bool.
+
+Notation D := (decode env prop orc orcq reg lz).
+
+Lemma D_struct : forall f nl fs cur kvs,
+  D (S f) (SStruct nl fs) cur (VMap kvs) = dec_struct (D f) (SStruct nl fs) cur kvs.
+Proof. reflexivity. Qed.
+
+Lemma D_plugin : forall f iface fk cur kvs,
+  D (S f) (SPlugin iface fk) cur (VMap kvs) = dec_plugin orc reg lz (D f) iface fk kvs.
+Proof. reflexivity. Qed.
+
+Lemma D_map : forall f e cur kvs, D (S f) (SMap e) cur (VMap kvs) = dec_map (D f) e cur kvs.
+Proof. reflexivity. Qed.
+
+Lemma D_slice : forall f e cur l, D (S f) (SSlice e) cur (VList l) = dec_slice (D f) e cur l.
+Proof. reflexivity. Qed.
+
+Lemma D_schedule_list : forall f iface fk cur l,
+  str_eqb iface i_schedule = true ->
+  D (S f) (SPlugin iface fk) cur (VList l) =
+  dec_plugin orc reg lz (D f) iface fk [(s_type, VStr s_composite); (s_nested, VList l)].
+Proof. intros. cbn. rewrite H. reflexivity. Qed.
+
+Lemma struct_step : forall nl fs kvs k k0 x f,
+  unique_key k kvs = true ->
+  find_exact k kvs = Some (k0, x) ->
+  find_field k (flat_fields (SStruct nl fs)) = Some f ->
+  (forall F c, notok (D F (f_schema f) c x)) ->
+  forall F cur, notok (D F (SStruct nl fs) cur (VMap kvs)).
+Proof.
+  intros nl fs kvs k k0 x f Hu He Hf Hn [|F] cur; [exact I|].
+  rewrite D_struct. eapply dec_struct_field_notok; eauto.
+Qed.
+
+Lemma plugin_entry_inv : forall iface kvs e,
+  plugin_entry reg iface kvs = Some e ->
+  exists k1 name, filter is_type_key kvs = [(k1, VStr name)] /\ lookup_entry reg iface name = Some e.
+Proof.
+  intros iface kvs e H. unfold plugin_entry in H.
+  destruct (filter is_type_key kvs) as [|[k1 v1] [|? ?]]; try discriminate;
+  destruct v1; try discriminate. eauto.
+Qed.
+
+(* a config key of a plugin whose decoding fails makes the plugin fail (unless the config is decoded lazily) *)
+Lemma plugin_step : forall iface fk kvs e cs d k k0 x f,
+  plugin_entry reg iface kvs = Some e ->
+  e_conf e = Some (cs, d) ->
+  entry_lazy lz fk e = false ->
+  unique_key k kvs = true ->
+  is_type_key (k, VNull) = false ->
+  find_exact k kvs = Some (k0, x) ->
+  find_field k (flat_fields cs) = Some f ->
+  (forall F c, notok (D F (f_schema f) c x)) ->
+  forall F cur, notok (D F (SPlugin iface fk) cur (VMap kvs)).
+Proof.
+  intros iface fk kvs e cs d k k0 x f Hp Hc Hl Hu Ht He Hf Hn [|F] cur; [exact I|].
+  rewrite D_plugin. unfold dec_plugin.
+  destruct (plugin_entry_inv _ _ _ Hp) as [k1 [name [H1 H2]]]. rewrite H1, H2, Hc.
+  unfold entry_lazy in Hl. rewrite Hl.
+  destruct (flat_fields_struct _ _ _ Hf) as [nl [fs ->]].
+  assert (Hx : notok (D F (SStruct nl fs) d (VMap (filter (fun kv => negb (is_type_key kv)) kvs)))).
+  { eapply struct_step; eauto.
+    - unfold unique_key. rewrite count_fold_filter; auto.
+    - rewrite find_exact_filter; eauto. }
+  destruct (D F (SStruct nl fs) d (VMap (filter (fun kv => negb (is_type_key kv)) kvs))); cbn in *; tauto.
+Qed.
+
+Lemma any_absurd : (forall F c, notok (D F SAny c VNull)) -> False.
+Proof. intro H. exact (H 1%nat CNil). Qed.
+
+(* Error propagation: when the decoding problem met at a path fails (whatever the current value and the
+   fuel), the decoding of the whole tree fails. *)
+Theorem propagate : forall p tags s cur v s' tags' cur' x,
+  reach reg lz p tags s cur v = Some (s', tags', cur', x) ->
+  (forall F c, notok (D F s' c x)) ->
+  forall F c, notok (D F s c v).
+Proof.
+  induction p as [|st p IH]; intros tags s cur v s' tags' cur' x Hr Hn.
+  - cbn in Hr. inversion Hr; subst. exact Hn.
+  - destruct st as [k|i]; cbn [reach] in Hr.
+    + destruct s; try discriminate.
+      * (* struct *)
+        destruct v; try discriminate.
+        destruct (unique_key k kvs) eqn:Hu; try discriminate.
+        destruct (find_exact k kvs) as [[k0 x0]|] eqn:He; try discriminate.
+        destruct (nth_field k (flat_fields (SStruct nullable fs)) (struct_cur (SStruct nullable fs) cur)) as [[f c0]|] eqn:Hf; try discriminate.
+        eapply struct_step; eauto using nth_field_find.
+      * (* map *)
+        destruct v; try discriminate.
+        destruct (unique_key k kvs) eqn:Hu; try discriminate.
+        destruct (find_exact k kvs) as [[k0 x0]|] eqn:He; try discriminate.
+        intros [|F] c; [exact I|]. rewrite D_map. unfold dec_map.
+        pose proof (dec_entries_notok (D F) s kvs k k0 x0 He (fun c => IH _ _ _ _ _ _ _ _ Hr Hn F c)) as H.
+        destruct (dec_entries (D F) s kvs); cbn in *; tauto.
+      * (* any *)
+        inversion Hr; subst. destruct (any_absurd Hn).
+      * (* plugin *)
+        destruct v; try discriminate.
+        destruct (unique_key k kvs && negb (is_type_key (k, VNull))) eqn:Hu; try discriminate.
+        apply andb_true_iff in Hu. destruct Hu as [Hu Ht]. apply negb_true_iff in Ht.
+        destruct (plugin_entry reg iface kvs) as [e|] eqn:Hp; try discriminate.
+        destruct (find_exact k kvs) as [[k0 x0]|] eqn:He; try discriminate.
+        destruct (e_conf e) as [[cs d]|] eqn:Hc; try discriminate.
+        destruct (entry_lazy lz fk e) eqn:Hl; try discriminate.
+        destruct (nth_field k (flat_fields cs) (struct_cur cs d)) as [[f c0]|] eqn:Hf; try discriminate.
+        eapply plugin_step; eauto using nth_field_find.
+    + destruct s; try discriminate.
+      * (* slice *)
+        destruct v; try discriminate.
+        destruct (nth_error l i) as [x0|] eqn:Hi; try discriminate.
+        intros [|F] c; [exact I|]. rewrite D_slice. unfold dec_slice. apply rmap_notok.
+        eapply dec_elems_notok; eauto.
+      * inversion Hr; subst. destruct (any_absurd Hn).
+      * (* schedule list shorthand *)
+        destruct v; try discriminate.
+        destruct (str_eqb iface i_schedule) eqn:Hs; try discriminate.
+        destruct (lookup_entry reg iface s_composite) as [e|] eqn:Hl; try discriminate.
+        destruct (e_conf e) as [[cs d]|] eqn:Hc; try discriminate.
+        destruct (entry_lazy lz fk e) eqn:Hz; try discriminate.
+        destruct (find_field s_nested (flat_fields cs)) as [f|] eqn:Hf; try discriminate.
+        destruct (f_schema f) as [| |el| | | |] eqn:Hfs; try discriminate.
+        destruct (nth_error l i) as [x0|] eqn:Hi; try discriminate.
+        intros [|F] c; [exact I|]. rewrite D_schedule_list by exact Hs.
+        assert (Hel : forall F c, notok (D F (f_schema f) c (VList l))).
+        { intros [|F'] c'; [exact I|]. rewrite Hfs, D_slice. unfold dec_slice. apply rmap_notok.
+          eapply dec_elems_notok; eauto. }
+        unfold dec_plugin.
+        replace (filter is_type_key [(s_type, VStr s_composite); (s_nested, VList l)])
+          with [(s_type, VStr s_composite)] by reflexivity.
+        replace (filter (fun kv => negb (is_type_key kv)) [(s_type, VStr s_composite); (s_nested, VList l)])
+          with [(s_nested, VList l)] by reflexivity.
+        rewrite Hl, Hc. unfold entry_lazy in Hz. rewrite Hz.
+        destruct (flat_fields_struct _ _ _ Hf) as [nl [fs ->]].
+        assert (Hx : notok (D F (SStruct nl fs) d (VMap [(s_nested, VList l)]))).
+        { eapply struct_step with (k := s_nested) (k0 := s_nested) (x := VList l);
+            [reflexivity|reflexivity|exact Hf|exact Hel]. }
+        destruct (D F (SStruct nl fs) d (VMap [(s_nested, VList l)])); cbn in *; tauto.
+Qed.
+
+End Decoder.
+
+(* ---------------------------------------------------------------- unknown keys *)
+Lemma mem_str_app : forall k a c, mem_str k (a ++ c) = mem_str k a || mem_str k c.
+Proof. induction a as [|x a IH]; cbn; intro c; [reflexivity|]. rewrite IH. apply orb_assoc. Qed.
+
+Lemma find_exact_fold : forall a kvs k' x, find_exact a kvs = Some (k', x) -> fold_eqb a k' = true.
+Proof. intros a kvs k' x H. destruct (find_exact_some _ _ _ _ H) as [-> _]. apply fold_eqb_refl. Qed.
+
+Lemma find_fold_fold : forall a kvs k' x, find_fold a kvs = Some (k', x) -> fold_eqb a k' = true.
+Proof.
+  induction kvs as [|[k1 x1] r IH]; cbn; intros k' x H; [discriminate|].
+  destruct (fold_eqb a k1) eqn:E; [inversion H; subst; exact E|]. eapply IH; eauto.
+Qed.
+
+Lemma find_key_fold : forall a kvs k' x, find_key a kvs = Some (k', x) -> fold_eqb a k' = true.
+Proof.
+  unfold find_key. intros a kvs k' x H. destruct (find_exact a kvs) as [[k1 x1]|] eqn:E.
+  - inversion H; subst. eapply find_exact_fold; eauto.
+  - eapply find_fold_fold; eauto.
+Qed.
+
+Lemma used_accepted : forall dec ffs cs kvs k,
+  mem_str k (snd (dec_fields dec ffs cs kvs)) = true -> accepted_b k (map f_key ffs) = true.
+Proof.
+  induction ffs as [|f r IH]; cbn -[find_key]; intros cs kvs k H; [discriminate|].
+  destruct (find_key (f_key f) kvs) as [[k' x]|] eqn:Hk;
+    destruct (dec_fields dec r (tl cs) kvs) as [r2 u2] eqn:Hd; cbn [snd] in H.
+  - rewrite mem_str_app in H. apply orb_true_iff in H. destruct H as [H|H].
+    + cbn in H. rewrite orb_false_r in H. apply str_eqb_eq in H. subst.
+      rewrite (find_key_fold _ _ _ _ Hk). reflexivity.
+    + apply orb_true_iff. right. apply (IH (tl cs) kvs). rewrite Hd. exact H.
+  - cbn in H. apply orb_true_iff. right. apply (IH (tl cs) kvs). rewrite Hd. exact H.
+Qed.
+
+Lemma struct_unknown_notok : forall dec s cur kvs k y,
+  In (k, y) kvs -> accepted_b k (map f_key (flat_fields s)) = false -> notok (dec_struct dec s cur kvs).
+Proof.
+  intros dec s cur kvs k y Hin Hacc. unfold dec_struct.
+  destruct (dec_fields dec (flat_fields s) (struct_cur s cur) kvs) as [r used] eqn:Hd.
+  destruct r as [cs|e|]; cbn; auto.
+  assert (Hu : all_used used kvs = false).
+  { unfold all_used. destruct (forallb (fun kv => mem_str (fst kv) used) kvs) eqn:E; auto.
+    rewrite forallb_forall in E. specialize (E _ Hin). cbn in E.
+    pose proof (used_accepted dec (flat_fields s) (struct_cur s cur) kvs k) as H. rewrite Hd in H. cbn in H.
+    rewrite (H E) in Hacc. discriminate. }
+  rewrite Hu. exact I.
+Qed.
+
+Lemma str_eqb_sym : forall a c, str_eqb a c = str_eqb c a.
+Proof.
+  intros. destruct (str_eqb a c) eqn:E; destruct (str_eqb c a) eqn:E2; auto.
+  - apply str_eqb_eq in E. subst. rewrite str_eqb_refl in E2. discriminate.
+  - apply str_eqb_eq in E2. subst. rewrite str_eqb_refl in E. discriminate.
+Qed.
+
+Section Unknown.
+Variable env : str -> option str.
+Variable prop : str -> str -> option str.
+Variable orc : okind -> str -> option Z.
+Variable orcq : str -> option Q.
+Variable reg : list entry.
+Variable lz : bool.
+Notation D := (decode env prop orc orcq reg lz).
+
+(* a node that writes a key its schema does not accept cannot be decoded *)
+Lemma node_unknown_notok : forall s x acc kvs k y,
+  classify_node reg lz s x = PStrict acc ->
+  x = VMap kvs -> In (k, y) kvs -> accepted_b k acc = false ->
+  forall F c, notok (D F s c x).
+Proof.
+  intros s x acc kvs k y Hc -> Hin Hacc [|F] c; [exact I|].
+  destruct s; cbn [classify_node] in Hc; try discriminate.
+  - inversion Hc; subst. rewrite D_struct. eapply struct_unknown_notok; eauto.
+  - destruct (plugin_entry reg iface kvs) as [e|] eqn:Hp; try discriminate.
+    destruct (plugin_entry_inv _ _ _ _ Hp) as [k1 [name [H1 H2]]].
+    rewrite D_plugin. unfold dec_plugin. rewrite H1, H2.
+    destruct (e_conf e) as [[cs d]|] eqn:He.
+    + destruct (entry_lazy lz fk e) eqn:Hl; try discriminate.
+      destruct (is_struct_schema cs) eqn:Hs; try discriminate.
+      inversion Hc; subst. cbn [accepted_b] in Hacc. apply orb_false_iff in Hacc. destruct Hacc as [Ht Hacc].
+      unfold entry_lazy in Hl. rewrite Hl.
+      assert (Hnt : is_type_key (k, y) = false).
+      { unfold is_type_key. cbn [fst]. unfold fold_eqb in Ht. change (lower s_type) with s_type in Ht.
+        rewrite str_eqb_sym. exact Ht. }
+      assert (Hin2 : In (k, y) (filter (fun kv => negb (is_type_key kv)) kvs)).
+      { apply filter_In. split; auto. rewrite Hnt. reflexivity. }
+      destruct cs; try discriminate.
+      destruct F as [|F]; [exact I|]. rewrite D_struct.
+      pose proof (struct_unknown_notok (D F) (SStruct nullable fs) d _ k y Hin2 Hacc) as Hx.
+      destruct (dec_struct (D F) (SStruct nullable fs) d (filter (fun kv => negb (is_type_key kv)) kvs)); cbn in *; tauto.
+    + inversion Hc; subst. cbn [accepted_b] in Hacc. apply orb_false_iff in Hacc. destruct Hacc as [Ht _].
+      assert (Hnt : is_type_key (k, y) = false).
+      { unfold is_type_key. cbn [fst]. unfold fold_eqb in Ht. change (lower s_type) with s_type in Ht.
+        rewrite str_eqb_sym. exact Ht. }
+      assert (Hin2 : In (k, y) (filter (fun kv => negb (is_type_key kv)) kvs)).
+      { apply filter_In. split; auto. rewrite Hnt. reflexivity. }
+      destruct (filter (fun kv => negb (is_type_key kv)) kvs); [destruct Hin2|exact I].
+Qed.
+
+(* reach follows the written tree *)
+Lemma reach_value_at : forall p tags s cur v s' tags' cur' x,
+  reach reg lz p tags s cur v = Some (s', tags', cur', x) ->
+  s' = SAny \/ value_at p v = Some x.
+Proof.
+  induction p as [|st p IH]; intros tags s cur v s' tags' cur' x Hr.
+  - cbn in Hr. inversion Hr; subst. right. reflexivity.
+  - destruct st as [k|i]; cbn [reach] in Hr; cbn [value_at].
+    + destruct s; try discriminate.
+      * destruct v; try discriminate.
+        destruct (unique_key k kvs); try discriminate.
+        destruct (find_exact k kvs) as [[k0 x0]|]; try discriminate.
+        destruct (nth_field k _ _) as [[f c0]|]; try discriminate. eapply IH; eauto.
+      * destruct v; try discriminate.
+        destruct (unique_key k kvs); try discriminate.
+        destruct (find_exact k kvs) as [[k0 x0]|]; try discriminate. eapply IH; eauto.
+      * inversion Hr; subst. left. reflexivity.
+      * destruct v; try discriminate.
+        destruct (unique_key k kvs && negb (is_type_key (k, VNull))); try discriminate.
+        destruct (plugin_entry reg iface kvs) as [e|]; try discriminate.
+        destruct (find_exact k kvs) as [[k0 x0]|]; try discriminate.
+        destruct (e_conf e) as [[cs d]|]; try discriminate.
+        destruct (entry_lazy lz fk e); try discriminate.
+        destruct (nth_field k _ _) as [[f c0]|]; try discriminate. eapply IH; eauto.
+    + destruct s; try discriminate.
+      * destruct v; try discriminate.
+        destruct (nth_error l i) as [x0|]; try discriminate. eapply IH; eauto.
+      * inversion Hr; subst. left. reflexivity.
+      * destruct v; try discriminate.
+        destruct (str_eqb iface i_schedule); try discriminate.
+        destruct (lookup_entry reg iface s_composite) as [e|]; try discriminate.
+        destruct (e_conf e) as [[cs d]|]; try discriminate.
+        destruct (entry_lazy lz fk e); try discriminate.
+        destruct (find_field s_nested (flat_fields cs)) as [f|]; try discriminate.
+        destruct (f_schema f); try discriminate.
+        destruct (nth_error l i) as [x0|]; try discriminate. eapply IH; eauto.
+Qed.
+
+(* Unknown key: if the node at path p writes a key that is not accepted there, decoding fails. *)
+Theorem unknown_key_at : forall p s cur v acc kvs k y,
+  classify reg lz p s cur v = PStrict acc ->
+  value_at p v = Some (VMap kvs) -> In (k, y) kvs -> accepted_b k acc = false ->
+  forall F c, notok (D F s c v).
+Proof.
+  intros p s cur v acc kvs k y Hc Hv Hin Hacc. unfold classify in Hc.
+  destruct (reach reg lz p [] s cur v) as [[[[s' tags'] cur'] x]|] eqn:Hr; try discriminate.
+  destruct (reach_value_at _ _ _ _ _ _ _ _ _ Hr) as [->|Hx].
+  - cbn in Hc. discriminate.
+  - rewrite Hv in Hx. inversion Hx; subst.
+    eapply propagate; eauto. eapply node_unknown_notok; eauto.
+Qed.
+
+End Unknown.
+
+(* ---------------------------------------------------------------- insertion into a written tree *)
+Lemma kv_update_find : forall k g kvs kvs',
+  kv_update k g kvs = Some kvs' ->
+  exists k0 x x', find_exact k kvs = Some (k0, x) /\ g x = Some x' /\ find_exact k kvs' = Some (k0, x').
+Proof.
+  induction kvs as [|[k1 x1] r IH]; cbn; intros kvs' H; [discriminate|].
+  destruct (str_eqb k k1) eqn:E.
+  - destruct (g x1) as [x'|] eqn:Hg; try discriminate. inversion H; subst. cbn. rewrite E.
+    exists k1, x1, x'. auto.
+  - destruct (kv_update k g r) as [r'|] eqn:Hu; try discriminate. inversion H; subst.
+    destruct (IH _ eq_refl) as [k0 [x [x' [H1 [H2 H3]]]]]. cbn. rewrite E. exists k0, x, x'. auto.
+Qed.
+
+Lemma list_update_nth : forall g l i l',
+  list_update i g l = Some l' ->
+  exists x x', nth_error l i = Some x /\ g x = Some x' /\ nth_error l' i = Some x'.
+Proof.
+  induction l as [|y r IH]; intros i l' H; destruct i; cbn in *; try discriminate.
+  - destruct (g y) as [x'|] eqn:Hg; try discriminate. inversion H; subst. cbn. exists y, x'. auto.
+  - destruct (list_update i g r) as [r'|] eqn:Hu; try discriminate. inversion H; subst. cbn. eapply IH; eauto.
+Qed.
+
+Lemma update_at_value_at : forall p g v v',
+  update_at p g v = Some v' ->
+  exists n n', value_at p v = Some n /\ g n = Some n' /\ value_at p v' = Some n'.
+Proof.
+  induction p as [|st p IH]; intros g v v' H.
+  - cbn in *. exists v, v'. auto.
+  - destruct st as [k|i]; cbn [update_at value_at] in *; destruct v; try discriminate.
+    + destruct (kv_update k (update_at p g) kvs) as [kvs'|] eqn:Hu; try discriminate. inversion H; subst.
+      destruct (kv_update_find _ _ _ _ Hu) as [k0 [x [x' [H1 [H2 H3]]]]]. rewrite H1, H3. eapply IH; eauto.
+    + destruct (list_update i (update_at p g) l) as [l'|] eqn:Hu; try discriminate. inversion H; subst.
+      destruct (list_update_nth _ _ _ _ Hu) as [x [x' [H1 [H2 H3]]]]. rewrite H1, H3. eapply IH; eauto.
+Qed.
+
+Lemma insert_key_value_at : forall p k y v v',
+  insert_key p k y v = Some v' ->
+  exists kvs, value_at p v = Some (VMap kvs) /\ has_key k kvs = false /\ value_at p v' = Some (VMap (kvs ++ [(k, y)])).
+Proof.
+  intros p k y v v' H. unfold insert_key in H.
+  destruct (update_at_value_at _ _ _ _ H) as [n [n' [H1 [H2 H3]]]].
+  destruct n; try discriminate. destruct (has_key k kvs) eqn:E; try discriminate.
+  inversion H2; subst. eauto.
+Qed.
+
+Section Theorems.
+Variable env : str -> option str.
+Variable prop : str -> str -> option str.
+Variable orc : okind -> str -> option Z.
+Variable orcq : str -> option Q.
+Variable reg : list entry.
+Variable lz : bool.
+Notation D := (decode env prop orc orcq reg lz).
+
+Theorem unknown_key_insert : forall p k y v0 v s cur acc,
+  insert_key p k y v0 = Some v ->
+  classify reg lz p s cur v = PStrict acc -> accepted_b k acc = false ->
+  forall F c, notok (D F s c v).
+Proof.
+  intros p k y v0 v s cur acc Hi Hc Hacc.
+  destruct (insert_key_value_at _ _ _ _ _ Hi) as [kvs [_ [_ Hv]]].
+  eapply unknown_key_at with (k := k) (y := y); eauto. apply in_or_app. right. left. reflexivity.
+Qed.
+
+(* ---------------------------------------------------------------- text without placeholders *)
+Lemma find_tags_none : forall n s, has_dollar_brace s = false -> find_tags n s = [].
+Proof.
+  induction n as [|n IH]; intros s H; [reflexivity|].
+  destruct s as [|c r]; [reflexivity|]. cbn [find_tags].
+  destruct r as [|c2 r2].
+  - destruct (c =? c_dollar); [reflexivity|]. destruct n; reflexivity.
+  - cbn [has_dollar_brace] in H. apply orb_false_iff in H. destruct H as [H1 H2].
+    destruct (c =? c_dollar) eqn:E1.
+    + change c_dollar with 36 in E1. rewrite E1 in H1. cbn in H1.
+      change c_lbrace with 123. rewrite H1. apply IH. exact H2.
+    + apply IH. exact H2.
+Qed.
+
+Lemma inject_plain : forall target s, has_dollar_brace s = false -> inject env prop orc orcq target s = HVal (VStr s).
+Proof. intros target s H. unfold inject. rewrite find_tags_none by exact H. reflexivity. Qed.
+
+Lemma hooks_plain : forall target s,
+  has_dollar_brace s = false -> hooks env prop orc orcq target (VStr s) = string_hooks orc target s.
+Proof. intros target s H. unfold hooks. rewrite inject_plain by exact H. reflexivity. Qed.
+
+(* ---------------------------------------------------------------- wrongly typed values *)
+Lemma wrong_type_notok : forall s x, wrong_type_b s x = true -> forall F c, notok (D F s c x).
+Proof.
+  intros s x H [|F] c; [exact I|].
+  destruct x; cbn in H; try discriminate;
+    destruct s as [nl fs|e|e|k| |iface fk|]; try discriminate; try (destruct k; try discriminate; exact I); try exact I.
+  (* a list at a plugin position that is not the schedule shorthand *)
+  cbn. apply negb_true_iff in H. rewrite H. exact I.
+Qed.
+
+Lemma wrong_type_str_notok : forall s t, wrong_type_str_b s t = true -> forall F c, notok (D F s c (VStr t)).
+Proof.
+  intros s t H [|F] c; [exact I|]. unfold wrong_type_str_b in H. apply andb_true_iff in H. destruct H as [Hd H].
+  apply negb_true_iff in Hd.
+  cbn [decode]. rewrite hooks_plain by exact Hd.
+  destruct s as [nl fs|e|e|k| |iface fk|]; try discriminate; try exact I.
+  - destruct k; try discriminate; exact I.
+  - cbn [string_hooks]. apply negb_true_iff in H. rewrite H. exact I.
+Qed.
+
+Theorem wrong_type_at : forall p s cur v s' tags d x,
+  reach reg lz p [] s cur v = Some (s', tags, d, x) ->
+  (wrong_type_b s' x = true \/ exists t, x = VStr t /\ wrong_type_str_b s' t = true) ->
+  forall F c, notok (D F s c v).
+Proof.
+  intros p s cur v s' tags d x Hr Hw. eapply propagate; eauto.
+  destruct Hw as [Hw|[t [-> Hw]]]; [apply wrong_type_notok|apply wrong_type_str_notok]; exact Hw.
+Qed.
+
+(* ---------------------------------------------------------------- failing hooks (unresolved placeholders, unparsable durations, ...) *)
+Theorem hook_error_at : forall p s cur v s' tags d x e,
+  reach reg lz p [] s cur v = Some (s', tags, d, x) ->
+  x <> VNull -> hooks env prop orc orcq s' x = HErr e ->
+  forall F c, notok (D F s c v).
+Proof.
+  intros p s cur v s' tags d x e Hr Hx Hh. eapply propagate; eauto.
+  intros [|F] c; [exact I|]. destruct x; try congruence; cbn [decode]; rewrite Hh; exact I.
+Qed.
+
+End Theorems.
+
+(* ---------------------------------------------------------------- validation *)
+Section Validation.
+Variable orc : okind -> str -> option Z.
+
+Lemma validate_all_forallb : forall e l,
+  (fix all (l : list cval) : bool := match l with [] => true | x :: r => validate orc x e && all r end) l
+  = forallb (fun x => validate orc x e) l.
+Proof. induction l as [|x r IH]; [reflexivity|]. cbn. rewrite IH. reflexivity. Qed.
+
+Lemma validate_struct_eq : forall cs s, validate orc (CStruct cs) s = vfields orc (validate orc) cs (flat_fields s).
+Proof.
+  intros cs s. cbn [validate]. generalize (flat_fields s) as ffs.
+  induction cs as [|c cs IH]; intros ffs; [reflexivity|].
+  destruct ffs as [|f ffs]; [reflexivity|].
+  cbn [vfields]. rewrite <- IH. unfold descend.
+  destruct (f_schema f); reflexivity.
+Qed.
+
+Lemma vfields_nth : forall rec cs ffs i c' f,
+  vfields orc rec cs ffs = true -> nth_error cs i = Some c' -> nth_error ffs i = Some f ->
+  check_field orc (f_schema f) c' (f_tags f) = true /\ descend rec f c' = true.
+Proof.
+  induction cs as [|c cs IH]; intros ffs i c' f H Hc Hf; destruct i; cbn in Hc; try discriminate;
+    destruct ffs as [|f0 ffs]; cbn in Hf; try discriminate; cbn [vfields] in H;
+    apply andb_true_iff in H; destruct H as [H H3]; apply andb_true_iff in H; destruct H as [H1 H2].
+  - inversion Hc; inversion Hf; subst. auto.
+  - eapply IH; eauto.
+Qed.
+
+(* every field of a validated struct value satisfies its validate tags *)
+Lemma validate_field : forall cs s i c' f,
+  validate orc (CStruct cs) s = true -> nth_error cs i = Some c' -> nth_error (flat_fields s) i = Some f ->
+  check_field orc (f_schema f) c' (f_tags f) = true.
+Proof. intros cs s i c' f H Hc Hf. rewrite validate_struct_eq in H. eapply vfields_nth; eauto. Qed.
+
+(* ... and so do the fields of nested structs *)
+Lemma validate_nested : forall cs s i c' f,
+  validate orc (CStruct cs) s = true -> nth_error cs i = Some c' -> nth_error (flat_fields s) i = Some f ->
+  is_struct_schema (f_schema f) = true -> validate orc c' (f_schema f) = true.
+Proof.
+  intros cs s i c' f H Hc Hf Hs. rewrite validate_struct_eq in H.
+  destruct (vfields_nth _ _ _ _ _ _ H Hc Hf) as [_ Hd]. unfold descend in Hd.
+  destruct (f_schema f); try discriminate. exact Hd.
+Qed.
+
+End Validation.
+
+(* ---------------------------------------------------------------- what a struct level produces *)
+Section Fields.
+Variable dec : schema -> cval -> value -> res cval.
+
+Definition cur_at (cs : list cval) (i : nat) (f : fld) : cval :=
+  match nth_error cs i with Some c => c | None => zero_of (f_schema f) end.
+
+Lemma tl_nth : forall (cs : list cval) i, nth_error (tl cs) i = nth_error cs (S i).
+Proof. destruct cs; destruct i; reflexivity. Qed.
+
+Lemma dec_fields_nth : forall ffs cs kvs rs i f,
+  fst (dec_fields dec ffs cs kvs) = Ok rs -> nth_error ffs i = Some f ->
+  exists r, nth_error rs i = Some r /\
+    match find_key (f_key f) kvs with
+    | None => r = cur_at cs i f
+    | Some (_, x) => dec (f_schema f) (cur_at cs i f) x = Ok r
+    end.
+Proof.
+  induction ffs as [|f0 ffs IH]; intros cs kvs rs i f H Hf; [destruct i; discriminate|].
+  cbn -[find_key] in H.
+  destruct (dec_fields dec ffs (tl cs) kvs) as [r2 u2] eqn:Hd.
+  assert (Hh : exists r1 rs2, r2 = Ok rs2 /\ rs = r1 :: rs2 /\
+                match find_key (f_key f0) kvs with
+                | None => r1 = match cs with c :: _ => c | [] => zero_of (f_schema f0) end
+                | Some (_, x) => dec (f_schema f0) (match cs with c :: _ => c | [] => zero_of (f_schema f0) end) x = Ok r1
+                end).
+  { destruct (find_key (f_key f0) kvs) as [[k' x]|]; cbn [fst] in H.
+    - destruct (dec (f_schema f0) (match cs with c :: _ => c | [] => zero_of (f_schema f0) end) x) as [r1|e|] eqn:E;
+        destruct r2 as [rs2|e2|]; cbn in H; try discriminate. inversion H; subst. eauto.
+    - destruct r2 as [rs2|e2|]; cbn in H; try discriminate. inversion H; subst. eauto. }
+  destruct Hh as [r1 [rs2 [-> [-> Hh]]]].
+  destruct i as [|i].
+  - cbn in Hf. inversion Hf; subst. exists r1. split; [reflexivity|].
+    unfold cur_at. destruct cs; cbn; exact Hh.
+  - cbn in Hf. specialize (IH (tl cs) kvs rs2 i f). rewrite Hd in IH. destruct (IH eq_refl Hf) as [r [Hr Hx]].
+    exists r. split; [exact Hr|]. unfold cur_at in *. rewrite tl_nth in Hx. exact Hx.
+Qed.
+
+End Fields.
+
+(* ---------------------------------------------------------------- defaults, ranges *)
+Section Results.
+Variable env : str -> option str.
+Variable prop : str -> str -> option str.
+Variable orc : okind -> str -> option Z.
+Variable orcq : str -> option Q.
+Variable reg : list entry.
+Variable lz : bool.
+Notation D := (decode env prop orc orcq reg lz).
+
+Definition unwritten (F : nat) (k : str) (kvs : list (str * value)) : Prop :=
+  find_key k kvs = None \/ (exists k', find_key k kvs = Some (k', VNull)).
+
+Lemma D_null : forall F s c r, D F s c VNull = Ok r -> r = c.
+Proof. intros [|F] s c r H; cbn in H; [discriminate|]. inversion H. reflexivity. Qed.
+
+Lemma dec_struct_ok : forall dec s cur kvs r,
+  dec_struct dec s cur kvs = Ok r ->
+  exists rs, r = CStruct rs /\ fst (dec_fields dec (flat_fields s) (struct_cur s cur) kvs) = Ok rs.
+Proof.
+  intros dec s cur kvs r H. unfold dec_struct in H.
+  destruct (dec_fields dec (flat_fields s) (struct_cur s cur) kvs) as [r0 used].
+  destruct r0 as [rs|e|]; try discriminate. destruct (all_used used kvs); try discriminate.
+  inversion H; subst. eauto.
+Qed.
+
+(* Decoding never zeroes: a struct field whose key is not written (or written as null) keeps its current value. *)
+Theorem defaults_kept_struct : forall F nl fs cur kvs r,
+  D (S F) (SStruct nl fs) cur (VMap kvs) = Ok r ->
+  exists rs, r = CStruct rs /\
+    forall i f, nth_error (flat_fields (SStruct nl fs)) i = Some f -> unwritten F (f_key f) kvs ->
+      nth_error rs i = Some (cur_at (struct_cur (SStruct nl fs) cur) i f).
+Proof.
+  intros F nl fs cur kvs r H. rewrite D_struct in H.
+  destruct (dec_struct_ok _ _ _ _ _ H) as [rs [-> Hd]]. exists rs. split; [reflexivity|].
+  intros i f Hf Hu.
+  destruct (dec_fields_nth _ _ _ _ _ _ _ Hd Hf) as [r1 [Hr Hx]]. rewrite Hr.
+  destruct Hu as [Hu|[k' Hu]]; rewrite Hu in Hx.
+  - subst. reflexivity.
+  - apply D_null in Hx. subst. reflexivity.
+Qed.
+
+(* The same for a component: options of a plugin that are not written keep the REGISTERED default. *)
+Theorem defaults_kept_plugin : forall F iface fk cur kvs r e nl fs d,
+  D (S F) (SPlugin iface fk) cur (VMap kvs) = Ok r ->
+  plugin_entry reg iface kvs = Some e -> e_conf e = Some (SStruct nl fs, d) -> entry_lazy lz fk e = false ->
+  exists name rs, r = CPlugin name false (CStruct rs) /\
+    validate orc (CStruct rs) (SStruct nl fs) = true /\
+    forall i f, nth_error (flat_fields (SStruct nl fs)) i = Some f ->
+      unwritten F (f_key f) (filter (fun kv => negb (is_type_key kv)) kvs) ->
+      nth_error rs i = Some (cur_at (struct_cur (SStruct nl fs) d) i f).
+Proof.
+  intros F iface fk cur kvs r e nl fs d H Hp Hc Hl. rewrite D_plugin in H. unfold dec_plugin in H.
+  destruct (plugin_entry_inv _ _ _ _ Hp) as [k1 [name [H1 H2]]]. rewrite H1, H2, Hc in H.
+  unfold entry_lazy in Hl. rewrite Hl in H.
+  destruct (D F (SStruct nl fs) d (VMap (filter (fun kv => negb (is_type_key kv)) kvs))) as [c| |] eqn:E; try discriminate.
+  destruct (validate orc c (SStruct nl fs)) eqn:Hv; try discriminate. inversion H; subst.
+  destruct F as [|F]; [cbn in E; discriminate|].
+  destruct (defaults_kept_struct _ _ _ _ _ _ E) as [rs [-> Hk]].
+  exists name, rs. split; [reflexivity|]. split; [exact Hv|]. intros i f Hf [Hu|[k' Hu]]; apply Hk; auto.
+  - left. exact Hu.
+  - right. eauto.
+Qed.
+
+(* A written value violating the validate tag of its field makes DecodeAndValidate fail. *)
+Theorem range_struct : forall F nl fs cur kvs i f k' x,
+  nth_error (flat_fields (SStruct nl fs)) i = Some f ->
+  find_key (f_key f) kvs = Some (k', x) ->
+  (forall c', D F (f_schema f) (cur_at (struct_cur (SStruct nl fs) cur) i f) x = Ok c' ->
+              check_field orc (f_schema f) c' (f_tags f) = false) ->
+  notok (decode_and_validate env prop orc orcq reg lz (S F) (SStruct nl fs) cur (VMap kvs)).
+Proof.
+  intros F nl fs cur kvs i f k' x Hf Hk Hv. unfold decode_and_validate.
+  destruct (D (S F) (SStruct nl fs) cur (VMap kvs)) as [r| |] eqn:E; try exact I.
+  rewrite D_struct in E. destruct (dec_struct_ok _ _ _ _ _ E) as [rs [-> Hd]].
+  destruct (dec_fields_nth _ _ _ _ _ _ _ Hd Hf) as [r1 [Hr Hx]]. rewrite Hk in Hx.
+  destruct (validate orc (CStruct rs) (SStruct nl fs)) eqn:Hval; [|exact I].
+  pose proof (validate_field orc _ _ _ _ _ Hval Hr Hf) as Hc1. rewrite (Hv _ Hx) in Hc1. discriminate.
+Qed.
+
+Theorem range_plugin : forall iface fk kvs e nl fs d i f k' x,
+  plugin_entry reg iface kvs = Some e -> e_conf e = Some (SStruct nl fs, d) -> entry_lazy lz fk e = false ->
+  nth_error (flat_fields (SStruct nl fs)) i = Some f ->
+  find_key (f_key f) (filter (fun kv => negb (is_type_key kv)) kvs) = Some (k', x) ->
+  (forall F' c', D F' (f_schema f) (cur_at (struct_cur (SStruct nl fs) d) i f) x = Ok c' ->
+              check_field orc (f_schema f) c' (f_tags f) = false) ->
+  forall F c, notok (D F (SPlugin iface fk) c (VMap kvs)).
+Proof.
+  intros iface fk kvs e nl fs d i f k' x Hp Hc Hl Hf Hk Hv [|F] c; [exact I|].
+  rewrite D_plugin. unfold dec_plugin.
+  destruct (plugin_entry_inv _ _ _ _ Hp) as [k1 [name [H1 H2]]]. rewrite H1, H2, Hc.
+  unfold entry_lazy in Hl. rewrite Hl.
+  destruct (D F (SStruct nl fs) d (VMap (filter (fun kv => negb (is_type_key kv)) kvs))) as [r| |] eqn:E; try exact I.
+  destruct F as [|F]; [cbn in E; discriminate|].
+  rewrite D_struct in E. destruct (dec_struct_ok _ _ _ _ _ E) as [rs [-> Hd]].
+  destruct (dec_fields_nth _ _ _ _ _ _ _ Hd Hf) as [r1 [Hr Hx]]. rewrite Hk in Hx.
+  destruct (validate orc (CStruct rs) (SStruct nl fs)) eqn:Hval; [|exact I].
+  pose proof (validate_field orc _ _ _ _ _ Hval Hr Hf) as Hc1. rewrite (Hv _ _ Hx) in Hc1. discriminate.
+Qed.
+
+(* ... at any depth: a component anywhere in the tree whose written option violates its tag fails the whole decode *)
+Theorem range_at : forall p s cur v iface fk tags d0 kvs e nl fs d i f k' x,
+  reach reg lz p [] s cur v = Some (SPlugin iface fk, tags, d0, VMap kvs) ->
+  plugin_entry reg iface kvs = Some e -> e_conf e = Some (SStruct nl fs, d) -> entry_lazy lz fk e = false ->
+  nth_error (flat_fields (SStruct nl fs)) i = Some f ->
+  find_key (f_key f) (filter (fun kv => negb (is_type_key kv)) kvs) = Some (k', x) ->
+  (forall F' c', D F' (f_schema f) (cur_at (struct_cur (SStruct nl fs) d) i f) x = Ok c' ->
+              check_field orc (f_schema f) c' (f_tags f) = false) ->
+  forall F c, notok (D F s c v).
+Proof.
+  intros. eapply propagate; eauto. intros F' c'. eapply range_plugin; eauto.
+Qed.
+
+End Results.
+
+(* ---------------------------------------------------------------- placeholders ${env:NAME} *)
+Lemma trim_left_id : forall s, (forall c r, s = c :: r -> is_space c = false) -> trim_left s = s.
+Proof. intros [|c r] H; [reflexivity|]. cbn. rewrite (H c r eq_refl). reflexivity. Qed.
+
+Lemma trim_id : forall s,
+  (forall c r, s = c :: r -> is_space c = false) ->
+  (forall c r, rev s = c :: r -> is_space c = false) -> trim s = s.
+Proof.
+  intros s H1 H2. unfold trim. rewrite (trim_left_id s H1), (trim_left_id (rev s) H2). apply rev_involutive.
+Qed.
+
+Lemma name_char_nospace : forall c, name_char c = true -> is_space c = false.
+Proof.
+  intros c H. unfold name_char in H. repeat (apply andb_true_iff in H; destruct H as [H ?]).
+  apply negb_true_iff. assumption.
+Qed.
+
+Lemma trim_name : forall name, forallb name_char name = true -> trim name = name.
+Proof.
+  intros name H. rewrite forallb_forall in H. apply trim_id.
+  - intros c r ->. apply name_char_nospace, H. left. reflexivity.
+  - intros c r Hr. apply name_char_nospace, H. apply in_rev. rewrite Hr. left. reflexivity.
+Qed.
+
+Lemma var_end_name : forall name acc rest,
+  forallb name_char name = true -> (acc <> [] \/ name <> []) ->
+  var_end acc (name ++ c_rbrace :: rest) = Some (rev acc ++ name, rest).
+Proof.
+  induction name as [|c name IH]; intros acc rest Hn Hne.
+  - cbn. destruct acc; [destruct Hne; congruence|]. rewrite app_nil_r. reflexivity.
+  - cbn in Hn. apply andb_true_iff in Hn. destruct Hn as [Hc Hn].
+    unfold name_char in Hc. repeat (apply andb_true_iff in Hc; destruct Hc as [Hc ?]).
+    cbn [app var_end].
+    apply negb_true_iff in Hc. rewrite Hc.
+    match goal with H : negb (c =? c_rbrace) = true |- _ => apply negb_true_iff in H; rewrite H end.
+    rewrite IH; auto.
+    + cbn. rewrite <- app_assoc. reflexivity.
+    + left. discriminate.
+Qed.
+
+Lemma find_tags_nil : forall n, find_tags n [] = [].
+Proof. destruct n; reflexivity. Qed.
+
+Lemma find_tags_ph_env : forall name,
+  simple_name name = true ->
+  find_tags (length (ph_env name)) (ph_env name)
+  = [{| t_whole := ph_env name; t_type := s_env; t_var := name |}].
+Proof.
+  intros name H. unfold simple_name in H.
+  assert (Hn : forallb name_char name = true) by (destruct name; [discriminate|exact H]).
+  assert (Hne : name <> []) by (destruct name; [discriminate|discriminate]).
+  unfold ph_env. cbn [length find_tags app s_env].
+  change (c_dollar =? c_dollar) with true. change (c_lbrace =? c_lbrace) with true. cbn match.
+  unfold match_at.
+  assert (Hg : grp [] (101 :: 110 :: 118 :: c_colon :: name ++ [c_rbrace]) = Some ([101;110;118], name, [])).
+  { cbn [grp]. change (101 =? c_rbrace) with false. change (101 =? c_colon) with false.
+    change (110 =? c_rbrace) with false. change (110 =? c_colon) with false.
+    change (118 =? c_rbrace) with false. change (118 =? c_colon) with false.
+    change (c_colon =? c_rbrace) with false. change (c_colon =? c_colon) with true. cbn [andb negb].
+    rewrite (var_end_name name [] [] Hn (or_intror Hne)). reflexivity. }
+  rewrite Hg. rewrite (trim_name name Hn). reflexivity.
+Qed.
+
+Lemma prefix_of_refl : forall s, prefix_of s s = Some [].
+Proof. induction s as [|c s IH]; cbn; [reflexivity|]. rewrite N.eqb_refl. exact IH. Qed.
+
+Lemma replace_all_whole : forall s v n, s <> [] -> replace_all (S n) s s v = v.
+Proof.
+  intros s v n H. destruct s as [|c r]; [congruence|]. cbn [replace_all].
+  rewrite prefix_of_refl. destruct n; cbn; apply app_nil_r.
+Qed.
+
+Lemma trim_ph_env : forall name, trim (ph_env name) = ph_env name.
+Proof.
+  intro name. apply trim_id.
+  - intros c r H. unfold ph_env in H. inversion H. reflexivity.
+  - intros c r H. unfold ph_env in H.
+    replace (c_dollar :: c_lbrace :: s_env ++ c_colon :: name ++ [c_rbrace])
+      with ((c_dollar :: c_lbrace :: s_env ++ c_colon :: name) ++ [c_rbrace]) in H
+      by reflexivity.
+    rewrite rev_unit in H. inversion H. reflexivity.
+Qed.
+
+Section Placeholders.
+Variable env : str -> option str.
+Variable prop : str -> str -> option str.
+Variable orc : okind -> str -> option Z.
+Variable orcq : str -> option Q.
+Variable reg : list entry.
+Variable lz : bool.
+Notation D := (decode env prop orc orcq reg lz).
+
+Lemma resolve_env : forall name, resolve env prop s_env name = match env name with Some v => RVal v | None => RErr EPlaceholder end.
+Proof. reflexivity. Qed.
+
+(* an unset environment variable is an error of the hook chain, whatever the target *)
+Lemma hooks_ph_unset : forall name target,
+  simple_name name = true -> env name = None ->
+  hooks env prop orc orcq target (VStr (ph_env name)) = HErr EPlaceholder.
+Proof.
+  intros name target Hs He. unfold hooks, inject. rewrite find_tags_ph_env by exact Hs.
+  cbn [subst_tokens t_type t_var]. rewrite resolve_env, He. reflexivity.
+Qed.
+
+(* a set variable: the text is cast by the kind of the target *)
+Lemma inject_ph_set : forall name target t,
+  simple_name name = true -> env name = Some t ->
+  inject env prop orc orcq target (ph_env name) = cast_text orc orcq target t.
+Proof.
+  intros name target t Hs He. unfold inject. rewrite find_tags_ph_env by exact Hs.
+  cbn [subst_tokens t_type t_var t_whole]. rewrite resolve_env, He.
+  rewrite replace_all_whole by (unfold ph_env; discriminate).
+  rewrite trim_ph_env, str_eqb_refl. reflexivity.
+Qed.
+
+(* In a scalar position of any kind the placeholder is decoded like the literal its text casts to, or -- when
+   the text is not a literal of that kind -- like the text itself (duration, size and text hooks included). *)
+Theorem placeholder_scalar : forall name t k F c,
+  simple_name name = true -> env name = Some t -> has_dollar_brace t = false ->
+  D (S F) (SScalar k) c (VStr (ph_env name)) =
+  match cast_text orc orcq (SScalar k) t with
+  | HVal (VStr _) => D (S F) (SScalar k) c (VStr t)
+  | HVal lit => D (S F) (SScalar k) c lit
+  | HErr e => Err e
+  end.
+Proof.
+  intros name t k F c Hs He Hd. cbn [decode hooks].
+  rewrite (inject_ph_set name (SScalar k) t Hs He), (inject_plain env prop orc orcq (SScalar k) t Hd).
+  unfold cast_text.
+  destruct (cast_kind (SScalar k)).
+  - destruct (parse_bool t); reflexivity.
+  - destruct (orc (OInt bits) t); reflexivity.
+  - destruct (orc (OInt bits) t); reflexivity.
+  - destruct (orcq t); reflexivity.
+  - reflexivity.
+  - reflexivity.
+Qed.
+
+Theorem placeholder_unset_at : forall p s cur v s' tags d name,
+  reach reg lz p [] s cur v = Some (s', tags, d, VStr (ph_env name)) ->
+  simple_name name = true -> env name = None ->
+  forall F c, notok (D F s c v).
+Proof.
+  intros. eapply hook_error_at; eauto; [discriminate|]. apply hooks_ph_unset; assumption.
+Qed.
+
+(* text without "${" passes the injection hook unchanged *)
+Theorem no_placeholder_unchanged : forall target t,
+  has_dollar_brace t = false -> inject env prop orc orcq target t = HVal (VStr t).
+Proof. intros. apply inject_plain. assumption. Qed.
+
+End Placeholders.
+
+(* ---------------------------------------------------------------- cli pre-pass on the whole tree *)
+Lemma cli_prepass_pools : forall kvs k l,
+  find_exact s_pools kvs = Some (k, VList l) ->
+  exists kvs', cli_prepass (VMap kvs) = VMap kvs' /\ find_exact s_pools kvs' = Some (k, VList (map prepass_pool l)).
+Proof.
+  intros kvs k l H. unfold cli_prepass. eexists. split; [reflexivity|].
+  induction kvs as [|[k1 x1] r IH]; cbn in *; [discriminate|].
+  destruct (str_eqb s_pools k1) eqn:E.
+  - inversion H; subst. rewrite str_eqb_sym in E. rewrite E. cbn. rewrite str_eqb_sym, E. reflexivity.
+  - rewrite str_eqb_sym in E. rewrite E. cbn. rewrite str_eqb_sym, E. apply IH. exact H.
+Qed.
